@@ -442,6 +442,15 @@ C05_Reads ==
     \cup
     (IF back # {} THEN {V("C05", "ReadWentBackwards", <<Ev.op, Ev.last, back>>)} ELSE {})
 
+(* C17 -- lease reads under the timing assumption (the harness bounds every message delay by  *)
+(* election timeout - lease duration and there is one clock): same freshness clauses          *)
+OkLease == Is("return") /\ Ev.call = "submit" /\ Ev.kind = 2 /\ Ev.res = "ok"
+C17_Lease ==
+  IF ~(OkLease /\ meta.family = "lease") THEN {} ELSE
+    LET il == inv[Ev.op].line
+        stale == {w \in wdone : w.line < il /\ w.index > Ev.last} IN
+    IF stale # {} THEN {V("C17", "StaleLeaseRead", <<Ev.op, Ev.node, Ev.last, stale>>)} ELSE {}
+
 -----------------------------------------------------------------------------
 (* C14 / C18 -- aborts, panics, failed restarts *)
 C14_Abort ==
@@ -681,7 +690,7 @@ NewBad ==
              \cup C06_LogMatching \cup C06_Handler \cup C06_Commit
              \cup C08_TermMonotone \cup C08_OneVote \cup C08_VoteUpToDate \cup C08_PrevoteInert \cup C08_Reload
              \cup C03_FutureTruth \cup C03_AtMostOnce \cup C03_RealTime \cup C03_NoInvention
-             \cup C04_AckDurable \cup C04_Replay \cup C05_Reads \cup C14_Abort \cup C18_Panic \cup Recorder
+             \cup C04_AckDurable \cup C04_Replay \cup C05_Reads \cup C17_Lease \cup C14_Abort \cup C18_Panic \cup Recorder
              \cup C15_Converge \cup C18_Futures \cup C09_FutureTruth
              \cup C16_Healthy \cup C10_Snapshot \cup C10_Fsm \cup C11_Log
              \cup C09_CfgAgreement \cup C09_LeaderVotes \cup C09_VoteRequests \cup C09_CommitMajority
